@@ -22,6 +22,8 @@ def gen_docs(seed, tier):
         yield "enum-std-integer", comps
     for comps in batches(G.enum_std_other((0, 3)), 48):
         yield "enum-std-other", comps
+    for comps in batches(G.enum_texttables(), 48):
+        yield "enum-texttable", comps
     n = 12000 if big else 1500
     buf = []
     for i in range(n):
@@ -62,6 +64,8 @@ def run_cases(seed, tier, on_case):
                     vals = [{"x": x, "y": 0xA5} for x in V.boundary_values(vrng, c.params[1].dop, 2, 8)]
                 except Exception:  # noqa
                     vals = []
+            elif family == "enum-texttable":
+                vals = [{"x": t, "y": 0xA5} for _, _, t in c.params[1].dop.compu.scales]
             else:
                 vals = []
                 for _ in range(3):
